@@ -13,6 +13,7 @@ from __future__ import annotations
 import json
 import os
 import random
+import time
 
 from harness import core, tlc
 from harness.tlaparse import iter_dump_states
@@ -20,14 +21,14 @@ from harness.tlaparse import iter_dump_states
 TOK_Q = ["a", " ", "%", "?", "#", "|", "+", "&", "\"", "^", ":", "..", "%41", "wap", "GEMINI-QUERY"]
 TIERS = {
     "quick": dict(tokens=TOK_Q, maxtok=2, shapes=["wapiti", "a b 1", "GEMINI-QUERYx", "URL:a"],
-                  inner=["a", " ", "%", "?", "#", "|", "+", "^", ":", "URL:a", "a b 1", "x:y"],
+                  inner=["a", " ", "?", "|", "^", "URL:a", "a b 1", "x:y"], kinds2=["file"],
                   views=["G", "GP", "GD", "SG", "H", "HS", "W", "M", "S"], hls=["default", "full"],
                   full_only_kinds=("zip", "mapdir", "maildir"), hi=[0xFF]),
     "thorough": dict(tokens=TOK_Q + ["=", "'", "<", "b 1", "\\"], maxtok=2,
                      shapes=["wapiti", "a b 1", "GEMINI-QUERYx", "URL:a", "a  2", "x y 10", "URL:a?b", "a%2Fb",
                              "PYGOPHERD-HTTPPROTO-ICONS"],
                      inner=["a", " ", "%", "?", "#", "|", "+", "&", "\"", "^", ":", "..", "%41", "URL:a", "a b 1", "x:y",
-                            "text.gif", "wap", "GEMINI-QUERY"],
+                            "text.gif", "wap", "GEMINI-QUERY"], kinds2=["file", "mbox", "dir"],
                      views=["G", "GP", "GD", "SG", "SGP", "SGD", "H", "HS", "W", "M", "S"], hls=["default", "full"],
                      full_only_kinds=None, hi=[0xFF, 0xE9]),
 }
@@ -38,6 +39,7 @@ CONSTANTS
   MaxTok = %(maxtok)d
   Shapes <- K_Shapes
   InnerTokens <- K_InnerTokens
+  Kinds2 <- K_Kinds2
   Views <- K_Views
   HLs <- K_HLs
 INVARIANT QuoteOK
@@ -77,7 +79,7 @@ def _crawl_case(job):
 
 def model_check(chk, t, k):
     cfg = MC_CFG % dict(consts=k.cfg_block(), maxtok=t["maxtok"])
-    files = dict(k.tla_files({"Tokens": t["tokens"], "Shapes": t["shapes"], "InnerTokens": t["inner"],
+    files = dict(k.tla_files({"Tokens": t["tokens"], "Shapes": t["shapes"], "InnerTokens": t["inner"], "Kinds2": t["kinds2"],
                               "Views": t["views"], "HLs": t["hls"]}))
     files["MC_C05_run.cfg"] = cfg
     res = tlc.check_model("MC_C05", "MC_C05_run.cfg", extra_files=files, dump=True, timeout=2400)
@@ -115,11 +117,35 @@ def run_crawls(cases, t, k, hl, views, scope=None):
     return traces
 
 
-def validate(traces, k):
+def validate(traces, k, module="TraceC05", cfg_text=None):
+    """Batched trace validation, several TLC processes side by side (each batch is one JVM, -workers 1)."""
+    from concurrent.futures import ThreadPoolExecutor
     files = dict(k.tla_files())
-    files["TraceC05_run.cfg"] = TRACE_CFG % dict(consts=k.cfg_block())
+    files[module + "_run.cfg"] = cfg_text or (TRACE_CFG % dict(consts=k.cfg_block()))
     slim = [{"id": tr["id"], "init": tr["init"], "events": tr["events"]} for tr in traces]
-    return tlc.validate_traces("TraceC05", "TraceC05_run.cfg", slim, extra_files=files, timeout=3000, chunk=3000)
+    par = max(1, min(int(os.environ.get("VERIF_PROCS") or 12), 12))
+    size = max(200, min(2500, (len(slim) + par - 1) // par))
+    offs = list(range(0, len(slim), size))
+
+    def one(off):
+        return off, tlc.validate_traces(module, module + "_run.cfg", slim[off:off + size], extra_files=files,
+                                        timeout=3000, chunk=size)
+
+    out = {"accepted": 0, "rejected": [], "drift": [], "states": 0, "generated": 0, "wall_s": 0.0, "cmd": ""}
+    with ThreadPoolExecutor(max_workers=par) as ex:
+        for off, tv in sorted(ex.map(one, offs), key=lambda x: x[0]):
+            out["accepted"] += tv["accepted"]
+            out["states"] += tv["states"]
+            out["generated"] += tv["generated"]
+            out["wall_s"] += tv["wall_s"]
+            out["cmd"] = tv["cmd"]
+            for r in tv["rejected"]:
+                r["index"] += off
+                out["rejected"].append(r)
+            for d in tv["drift"]:
+                d["index"] += off
+                out["drift"].append(d)
+    return out
 
 
 def case_key(case):
@@ -171,13 +197,17 @@ def main(chk, replay=None):
                     sub = [c for c in sub if "^" in c["n"] or "^" in c.get("m", "")]
                 plans.append((hl, t["views"], sub, hi))
     # 2. crawl the real server, 3. validate with TLC
-    traces = []
+    traces, timing = [], [{"model_s": res["wall_s"]}]
     for hl, views, sub, hi in plans:
         kk = L.Consts(hi_byte=hi)
+        t1 = time.time()
         part = run_crawls(sub, t, kk, hl, views, scope)
         for tr in part:
             tr["hi_byte"] = hi
+        t2 = time.time()
         tv = validate(part, kk)
+        timing.append({"hl": hl, "hi": hi, "cases": len(sub), "traces": len(part), "crawl_s": round(t2 - t1, 1),
+                       "validate_s": round(time.time() - t2, 1)})
         report(chk, part, tv)
         traces.append((part, tv))
     alltr = [tr for part, _ in traces for tr in part]
@@ -203,7 +233,8 @@ def main(chk, replay=None):
         "constants_bound": k.bound, "proto_order": k.proto_order,
         "bindings": ["B1 protocol order/waptop/query prefix from the tree", "B2 TLC-enumerated trees crawled",
                      "B3 TraceC05"],
-        "tier_parameters": {x: t[x] for x in ("tokens", "maxtok", "shapes", "inner", "views", "hls", "hi")},
+        "timing": timing,
+        "tier_parameters": {x: t[x] for x in ("tokens", "maxtok", "shapes", "inner", "kinds2", "views", "hls", "hi")},
     }
     return chk.finish(cov, [
         "alpha = response classifiers and listing lexers of harness/c05_lib.py; a response counts as success only "
